@@ -388,6 +388,17 @@ class Interp:
                 return self.resolve(r)
             return r
         if isinstance(e, ast.Attribute):
+            if isinstance(e.value, ast.Name) and e.value.id in ('self', 'cls', self.cls) and e.attr in self.methods \
+                    and (e.value.id not in env or e.value.id in ('self', 'cls')):
+                # a helper of the class taken as a value (map(Class.helper, xs)): bound to its receiver unless static
+                node, kind = self.methods[e.attr]
+                if not (node.args.vararg or node.args.kwarg or node.args.kwonlyargs or node.args.defaults):
+                    c_ = Closure(node, {})
+                    if kind != 'static':
+                        if e.value.id not in env:
+                            raise _nt(e, '(unbound method)')
+                        c_.bound = [env[e.value.id]]
+                    return c_
             basev = self.ev(e.value, env)
             attr = e.attr
             if isinstance(e.value, ast.Name) and e.value.id == 'self' and self.cls:
@@ -623,6 +634,7 @@ class Interp:
         n = fn.node
         env = dict(fn.env)
         params = [a.arg for a in n.args.args]
+        args = list(getattr(fn, 'bound', ())) + list(args)
         if len(params) != len(args):
             raise _nt(node, '(arity)')
         env.update(zip(params, args))
